@@ -174,12 +174,17 @@ class Dictionary:
         return list(filter(bool, chain.from_iterable(tokens)))
 
     def _add_to_cache(self, value, cache):
-        cache.setdefault(self._settings.registry_key, {})[self.info["name"]] = value
+        registry_key = self._settings.registry_key
+        cache.setdefault(registry_key, {})[self.info["name"]] = value
         if (
             self._settings.CACHE_SIZE_LIMIT
             and len(cache) > self._settings.CACHE_SIZE_LIMIT
         ):
-            cache.pop(list(cache.keys())[0])
+            # evict the oldest entry, but never the one that was just written
+            # (the callers read it back right away)
+            oldest = next((key for key in cache if key != registry_key), None)
+            if oldest is not None:
+                cache.pop(oldest)
 
     def _split_by_known_words(self, string: str, keep_formatting: bool):
         regex = self._get_split_regex_cache()
